@@ -35,6 +35,10 @@ def cases(tier, seed):
             o.update(feed_frac_reporting=1.0, feed_n_missing=0)
         if m == 5:
             o.update(feed_partial_above=0.5, feed_p_partial=0.9, mp=dict(beta=3))
+        if i % 12 == 5 and o["estimator"] != "bootstrap":
+            # a unit whose row has arrived with one of several requested counts still missing: it is passed through
+            # (drop policy) with the counts it does have, and they are a floor of its groups like any other
+            o.update(null_cells=True, allow_pointer_config=False, n_estimands=int(2 + i % 2))
         if i % 12 in (0, 7) and o["estimator"] != "bootstrap":
             # grouping columns as integers (the unchanged bootstrap estimator cannot take them): district 2 sorts before
             # district 10 as a number, after it as a string
